@@ -648,6 +648,22 @@ def run_property(mod, tier, seed, replay=None):
     broken.append({'kind': 'correspondence', 'name': 'correspondence:%s' % pid,
                    'detail': '%d cases: implementation raised / non-finite: %s on %s' % (len(impl_errors), impl_errors[0][1], json.dumps(jsonable(impl_errors[0][0]))[:400])})
 
+  # 3b. a property's additional correspondence (its own obligations, same verdict rules)
+  if hasattr(mod, 'extra_correspondence') and not any(b['kind'] in ('translator', 'model-build') for b in broken):
+    try:
+      ok_x, mlog_x = build([m[:-2] + '.vo' for m in getattr(mod, 'EXTRA_MODEL_VO', [])]) if getattr(mod, 'EXTRA_MODEL_VO', []) else (True, '')
+      if not ok_x:
+        raise RuntimeError('model build: ' + first_error(mlog_x))
+      xo, xb, xf, xn = mod.extra_correspondence(rng, tier)
+    except Exception as e:
+      traceback.print_exc()
+      xo, xb, xf, xn = ['correspondence:%s:extra' % pid], [{'kind': 'correspondence-run', 'name': 'correspondence:%s:extra' % pid,
+                                                            'detail': '%s: %s' % (type(e).__name__, str(e)[:300])}], [], {}
+    obligations += xo
+    broken += xb
+    failing_cases += xf
+    notes.update(xn)
+
   # 4. verdict
   violations = 0
   lines = []
